@@ -168,7 +168,7 @@ Proof.
   { destruct ext; [ | lia ]. apply aligned64_mono. apply N.mul_le_mono_r. unfold sequenceBound.
     assert (b1 / c_ZSTD_MINMATCH_MIN <= b2 / c_ZSTD_MINMATCH_MIN) by (apply N.div_le_mono; [ discriminate | exact Hb ]).
     assert (b1 / c_ZSTD_BLOCKSIZE_MAX_MIN <= b2 / c_ZSTD_BLOCKSIZE_MAX_MIN) by (apply N.div_le_mono; [ discriminate | exact Hb ]).
-    lia. }
+    repeat first [ apply N.le_refl | assumption | apply N.add_le_mono ]. }
   assert (T6 : alloc_size rz (if buffered && inb then w1 + N.min mbs w1 else 0)
                <= alloc_size rz (if buffered && inb then w2 + N.min mbs w2 else 0)).
   { apply alloc_size_mono. destruct (buffered && inb); lia. }
@@ -276,3 +276,51 @@ Definition level_covered (l L : Z) : Prop := (0 <= l <= L)%Z /\ (l = 0%Z -> (3 <
     eapply N.le_trans; [ apply session_need_mono; [ exact Hs | reflexivity ] | ].
     unfold need_stream_cls, stream2_params_cls in SS. lia.
   Qed.
+
+(* ------------------------------------------------------------------ *)
+(* CCtx_params estimators: exactly the need of a session whose source size is unknown (tier-consistent case) *)
+
+Lemma resolve_idem m : resolveMaxBlockSize (resolveMaxBlockSize m) = resolveMaxBlockSize m.
+Proof. unfold resolveMaxBlockSize. destruct (N.eqb_spec m 0); [ reflexivity | ]. destruct (N.eqb_spec m 0); [ contradiction | reflexivity ]. Qed.
+
+Lemma estimate_internal_resolve rz cp l st row bi bo pl ext m :
+  estimate_internal rz cp l st row bi bo pl ext (resolveMaxBlockSize m) = estimate_internal rz cp l st row bi bo pl ext m.
+Proof. unfold estimate_internal. rewrite resolve_idem. reflexivity. Qed.
+
+Lemma ccparams_estimate_is_need_unknown rz p :
+  p_nbWorkers p = 0 ->
+  estimateCCtxSize_usingCCtxParams rz p
+  = Some (session_need rz (stream2_params p UNKNOWN) UNKNOWN (p_extSeq p) true false false).
+Proof.
+  intros Hw. unfold estimateCCtxSize_usingCCtxParams, session_need, stream2_params, resolveLdmParamsForEstimate.
+  rewrite Hw. change (0 <? 0) with false. cbv iota.
+  unfold reset_buffInSize, reset_buffOutSize. cbn [andb]. rewrite estimate_internal_resolve.
+  unfold ldm_with_enable, ldm_enabled. cbn [ldm_enable]. reflexivity.
+Qed.
+
+Lemma cstream_estimate_is_need_unknown rz p :
+  p_nbWorkers p = 0 ->
+  wlog (getCParamsFromCCtxParams p UNKNOWN 0 CpmNoAttachDict) <= 63 ->
+  estimateCStreamSize_usingCCtxParams rz p
+  = Some (session_need rz (stream2_params p UNKNOWN) UNKNOWN (p_extSeq p) true (p_inBuffered p) (p_outBuffered p)).
+Proof.
+  intros Hw H63. unfold estimateCStreamSize_usingCCtxParams, session_need, stream2_params, resolveLdmParamsForEstimate.
+  rewrite Hw. change (0 <? 0) with false. cbv iota.
+  set (cp := getCParamsFromCCtxParams p UNKNOWN 0 CpmNoAttachDict) in *.
+  assert (Hp : 2 ^ wlog cp <= UNKNOWN).
+  { assert (2 ^ wlog cp <= 2 ^ 63) by (apply N.pow_le_mono_r; lia).
+    unfold UNKNOWN. change (2 ^ 63) with 9223372036854775808 in H. lia. }
+  assert (Hp1 : 1 <= 2 ^ wlog cp) by (pose proof (N.pow_nonzero 2 (wlog cp)); lia).
+  unfold reset_buffInSize, reset_buffOutSize. cbn [andb].
+  rewrite (N.min_l _ _ Hp). rewrite (N.max_r _ _ Hp1).
+  rewrite estimate_internal_resolve.
+  unfold ldm_with_enable, ldm_enabled. cbn [ldm_enable]. reflexivity.
+Qed.
+
+(* the cross-tier statement is false (known finding C14-ccparams-level-tier): level 1 + maxBlockSize 1024,
+   source of 16 KiB: the need of ZSTD_compress2 exceeds ZSTD_estimateCCtxSize_usingCCtxParams *)
+Definition tier_witness_pp : cctxparams := mkPP 1 zero_cp PsAuto (ldm_zero PsAuto) 1024 false true true 0 0.
+Lemma ccparams_level_tier_refuted_l :
+  exists e, estimateCCtxSize_usingCCtxParams 0 tier_witness_pp = Some e /\
+            e < session_need 0 (stream2_params tier_witness_pp 16384) 16384 false true false false.
+Proof. eexists. split; [ vm_compute; reflexivity | vm_compute; reflexivity ]. Qed.
